@@ -88,7 +88,7 @@ CHECKS = {
     "C17": dict(
         category="proof",
         technique="Coq proof (a failed run leaves a crash state; any number of failed runs then a clean run = clean outcome or error) + writers and the overlap error path translated from /repo on every run + the failure-propagation skeleton of every function of the pipeline modules and of the main block translated from /repo on every run and checked against two criteria whose meaning is proved for every execution (no handler / finally / __exit__ swallows an exception) + fault injection (ENOSPC / worker exceptions) on the real command line",
-        text="Theorem c17_code_overlap_error_path: after an exception anywhere in the overlap calculation the partial file is removed, the final name untouched or complete, and the exception raised again (code as translated); c17_rerun/c17_faults over Model/Cache.v. The first sentence of C17 (a failing step gives a non-zero exit status): c17_code_nothing_swallowed / c17_code_failure_is_reported (Props/C17code.v) - in every execution of the big-step semantics of Model/Flow.v, a function of the pipeline modules (167 defs) or the main block ends normally only if every statement it executed completed: no except clause (other than polls of a queue and the tolerated setrlimit failure), finally clause, context manager or sys.exit(<possibly zero>) turns a failure into a normal end (noswallow_sound, by mutual induction over derivations); trusted there: an uncaught exception of the main block is a non-zero exit status, pool.map re-raises a worker's exception. It is also checked on every run by raising OSError(ENOSPC) at every "
+        text="Theorem c17_code_overlap_error_path: after an exception anywhere in the overlap calculation the partial file is removed, the final name untouched or complete, and the exception raised again (code as translated); c17_rerun/c17_faults over Model/Cache.v. The first sentence of C17 (a failing step gives a non-zero exit status): c17_code_nothing_swallowed / c17_code_failure_is_reported (Props/C17code.v) - in every execution of the big-step semantics of Model/Flow.v, a function of the pipeline and reader modules (199 defs) or the main block ends normally only if every statement it executed completed: no except clause (other than polls of a queue and the tolerated setrlimit failure), finally clause, context manager or sys.exit(<possibly zero>) turns a failure into a normal end (noswallow_sound, by mutual induction over derivations); trusted there: an uncaught exception of the main block is a non-zero exit status, pool.map re-raises a worker's exception. It is also checked on every run by raising OSError(ENOSPC) at every "
              "create/write/close/rename of every intermediate and result file and RuntimeError in per-gene overlap steps and merge tasks, in the main process and in pool workers, singly and in pairs. "
              "Then as C12: atomic intermediates, crash-state membership, re-run against model and uninterrupted run.",
         design="DESIGN.md 6 C17"),
